@@ -49,6 +49,21 @@ def gen_routing(ctx, k, debug):
                 tn, full = rng.choice([('MSG_CS_DRIVE_ACK', 3), ('MSG_BM_CONFIDENCE', 3), ('MSG_BM_OCC', 1), ('MSG_LC_STAT', 3), ('MSG_BOOST_STAT', 1), ('MSG_BM_SPEED', 4),
                                        ('MSG_CS_STATE', 1), ('MSG_ACCESSORY_STATE', 5)])
                 pre = [model.build_msg(rng.choice([(0, 0, 0), (5, 0, 0)]), 0, model.C(tn), bytes(rng.randrange(256) for _ in range(rng.randrange(0, full))))]
+            if rng.random() < 0.3:
+                # fed byte-wise with the read callback reporting "nothing available" after every escape byte (and at random other places):
+                # how the bytes arrive must not decide what happens to the message. Sequence numbers / data that need escaping included
+                if rng.random() < 0.5:
+                    m = model.build_msg(addr, rng.choice([253, 254, 0]), t, data)
+                    msgs[-1] = (m, t, data)
+                fr = model.frame(b''.join(pre) + m)
+                items = []
+                for i_, x in enumerate(fr):
+                    items.append(x)
+                    if x == 0xFD or rng.random() < 0.05:
+                        items.append(None)
+                from ..scen import raw
+                sc.add(f'mark c{len(msgs) - 1}', raw(items), 'quiesce', 'drain intern')
+                continue
             sc.add(f'mark c{len(msgs) - 1}', up(*pre, m), 'quiesce', 'drain intern')
     sc.add('mark cend', 'stop')
     return sc.text(), msgs
